@@ -52,14 +52,40 @@ func expansionSites(p *core.Program) []*ssa.Function {
 				if !ok || !lk.CommaOk || !types.Identical(lk.X.Type(), dbT) {
 					continue
 				}
-				if !seen[fn] {
-					seen[fn] = true
-					out = append(out, fn)
+				// a helper that is handed the logged element by its caller is judged in the caller's context
+				roots := []*ssa.Function{fn}
+				if takesElement(p, fn) {
+					roots = contextRoots(p, fn, 2)
+				}
+				for _, r := range roots {
+					if !seen[r] {
+						seen[r] = true
+						out = append(out, r)
+					}
 				}
 			}
 		}
 	}
 	return out
+}
+
+// takesElement: one of fn's parameters (after the receiver) is a shared.Element, *Element or Elements.
+func takesElement(p *core.Program, fn *ssa.Function) bool {
+	elT := p.LookupType(core.LibPath, "Element")
+	elsT := p.LookupType(core.LibPath, "Elements")
+	for i, prm := range fn.Params {
+		if i == 0 && fn.Signature.Recv() != nil {
+			continue
+		}
+		t := prm.Type()
+		if pt, ok := t.(*types.Pointer); ok {
+			t = pt.Elem()
+		}
+		if (elT != nil && types.Identical(t, elT)) || (elsT != nil && types.Identical(t, elsT)) {
+			return true
+		}
+	}
+	return false
 }
 
 type expClassifier struct {
@@ -251,10 +277,42 @@ func collectContributions(c *core.Ctx, rule string, fn *ssa.Function) ([]contrib
 			}
 		}
 	}
+	// a list filled through Elements.Add in this exploration, and sinks that are fed by replaying such a list
+	// element by element (second pass: for _, e := range list { acc.Add(e.Name, e.Value) })
+	sinkLists := map[string]bool{}
+	type relay struct{ sink, gate, pos string }
+	var relays []relay
+	relayOf := func(s *absint.State, nameV, valV absint.Value) bool {
+		if !sameElem(x, nameV, "Name", valV, "Value") {
+			return false
+		}
+		loc := locOf(x, nameV) // L:§@k[idx]·Name
+		if !strings.HasPrefix(loc, "L:§") {
+			return false
+		}
+		name := strings.TrimPrefix(loc, "L:§")
+		if j := strings.IndexAny(name, "[·"); j >= 0 {
+			name = name[:j]
+		}
+		return sinkLists[locOf(x, absint.Sym{Name: name})]
+	}
+	gateOf := func(s *absint.State) string {
+		var gs []string
+		for _, sw := range []string{"Totals", "TotalsOnly"} {
+			if v := s.Data["gate:"+sw]; v != "" {
+				gs = append(gs, sw+"="+v)
+			}
+		}
+		return strings.Join(gs, ",")
+	}
 	x.Hooks.Call = func(x *absint.Exec, s *absint.State, site ssa.CallInstruction, callee *ssa.Function, fnv absint.Value, args []absint.Value) (absint.Value, bool) {
 		pos := c.P.Pos(site.Pos())
 		switch {
 		case isMethod(callee, core.LibPath, "Accumulator", "Add") && len(args) == 3:
+			if relayOf(s, args[1], args[2]) {
+				relays = append(relays, relay{"Accumulator.Add", gateOf(s), pos})
+				return absint.Const{}, true
+			}
 			add(s, "Accumulator.Add", cl.nameClass(args[1]), cl.valueClass(args[2]), pos)
 			return absint.Const{}, true
 		case isMethod(callee, core.LibPath, "TreeNode", "AddDeep") && len(args) >= 2:
@@ -266,6 +324,9 @@ func collectContributions(c *core.Ctx, rule string, fn *ssa.Function) ([]contrib
 			return absint.Const{}, true
 		case isMethod(callee, core.LibPath, "Elements", "Add") && len(args) == 3:
 			add(s, "Elements.Add", cl.nameClass(args[1]), cl.valueClass(args[2]), pos)
+			if p, ok := args[0].(absint.Ptr); ok {
+				sinkLists[p.Loc] = true
+			}
 			return absint.Const{}, true
 		case callee != nil && strings.HasPrefix(callee.String(), "fmt.Fprint") && len(args) >= 2:
 			var nm, vl string
@@ -341,6 +402,32 @@ func collectContributions(c *core.Ctx, rule string, fn *ssa.Function) ([]contrib
 	_ = skipped
 	x.Run(x.NewState(fn, nil, nil))
 	ok := account(c, x, rule, fn)
+	// a sink fed by replaying the list receives what the list received, under both gates
+	doneRelay := map[string]bool{}
+	for _, r := range relays {
+		if doneRelay[r.sink+"|"+r.gate] {
+			continue
+		}
+		doneRelay[r.sink+"|"+r.gate] = true
+		for _, ct := range append([]contribution(nil), out...) {
+			if ct.sink != "Elements.Add" {
+				continue
+			}
+			cp := ct
+			cp.sink = r.sink
+			cp.pos = r.pos
+			switch {
+			case cp.gate == "":
+				cp.gate = r.gate
+			case r.gate != "" && r.gate != cp.gate:
+				cp.gate = cp.gate + "," + r.gate
+			}
+			if k := cp.String(); !seen[k] {
+				seen[k] = true
+				out = append(out, cp)
+			}
+		}
+	}
 	return out, ok
 }
 
